@@ -78,14 +78,17 @@ import jobs_c21
 PROPS["C07"] = dict(
     functions=["revm::EvmContext::{make_call_frame, make_create_frame, make_eofcreate_frame} (crates/revm/src/context/evm_context.rs)",
                "revm::InnerEvmContext::{call_return, create_return, eofcreate_return} (crates/revm/src/context/inner_evm_context.rs)"],
-    bounds="every path of the (acyclic) MIR control-flow graph of the six functions, unwind/cleanup edges excluded; paths that return Err (a `?` on a "
+    bounds="depth limit: every 64-bit depth value against the comparison each constructor makes; depth balance: every path of the (acyclic) MIR control-flow graph of the six functions, unwind/cleanup edges excluded; paths that return Err (a `?` on a "
            "database error aborts the transaction) are not constrained; branch conditions abstracted to free choices (over-approximation of the real paths)",
-    outside="that run_the_loop pairs every frame with exactly one *_return (whole call loop); the numeric 1024 limit at run time beyond the constant "
-            "CALL_STACK_LIMIT == 1024 and the `depth() > CALL_STACK_LIMIT` test being the first branch; callees other than the summarised ones are assumed depth-neutral",
+    outside="that run_the_loop pairs every frame with exactly one *_return (whole call loop); callees other than the summarised ones are assumed depth-neutral; "
+            "the depth-limit job reads the one comparison of JournaledState::depth() with a u64 constant per constructor (in it or in one helper it calls): a limit "
+            "expressed any other way is answered by the native scenarios at depths 1023..1026 only (inconclusive unless they fail)",
     assumptions=["callee summaries: JournaledState::checkpoint +1, checkpoint_commit -1, checkpoint_revert -1, create_account_checkpoint Ok:+1 / Err:0",
                  "nightly MIR control flow equals the compiled control flow", "z3 4.8.12 and cvc5 1.0 agree on every query",
                  "a sat answer is a candidate path and is only reported after the native scenario reproduces the depth change"],
-    jobs=[dict(name="e3::frame_depth_balance", fn=jobs_e3.run_depth_balance)],
+    jobs=[dict(name="e3::frame_depth_balance", fn=jobs_e3.run_depth_balance),
+          dict(name="e3::depth_limit_is_1024", fn=__import__("jobs_c07").run_depth_limit),  # refusal <=> depth > 1024, all 2^64 depths, per constructor
+          dict(name="e3::create_collision_guard", fn=jobs_c21.run_create_guard)],  # decides the {Ok: +1, Err: 0} summary of create_account_checkpoint that the depth job uses
 )
 
 # --------------------------------------------------------------------------- C20 / C21
@@ -148,6 +151,8 @@ PROPS["C08"] = dict(
     assumptions=["paths returning a database error abort the transaction and are not constrained", "branch conditions abstracted to free choices",
                  "z3 4.8.12 and cvc5 1.0 agree; a sat path is replayed on the real JournaledState by the native tool"],
     jobs=[dict(name="e3::transfer_conservation", fn=jobs_e3.run_transfer_conservation),
+          dict(name="e3::transfer_sequential_consistency", fn=jobs_c21.run_transfer_order),
+          dict(name="e3::beneficiary_price_dataflow", fn=jobs_e3.run_fee_prices),
           dict(name="e3::selfdestruct_and_reimburse_value_moves", fn=jobs_e3.run_value_moves)],
 )
 
@@ -159,7 +164,7 @@ PROPS["C09"] = dict(
                "revm::handler::mainnet::reward_beneficiary: reaching definitions of the per-gas price paid to the beneficiary (MIR data flow)"],
     bounds="all u64 tx gas limits, first-frame limits/spent (spent <= frame limit <= tx limit), all non-negative i64 refunds (< 2^60 in refund_cap), 8 result classes "
            "(3 success, revert, 4 halts), London / pre-London; floor step: all 0 <= used <= limit, 0 <= floor <= limit",
-    outside="intrinsic gas <= gas used at transaction level; the exact amounts paid: the sender paying price x used + blob fee and the beneficiary receiving "
+    outside="intrinsic gas <= gas used at transaction level (the intrinsic and floor VALUES are decided, calldata <= 8 bytes); the exact amounts paid: the sender paying price x used + blob fee and the beneficiary receiving "
             "(price - basefee) x used (reimburse_caller / reward_beneficiary go through the journal's hash maps: a Kani harness on a real Context did not get through "
             "hashbrown in 40 min) - only WHICH price reaches the beneficiary payment and that the caller is credited on every path (C08) are decided; exact-intrinsic runs",
     assumptions=["std::hash::RandomState::new stubbed with fixed keys (the Context's empty maps are never hashed into)",
@@ -168,20 +173,26 @@ PROPS["C09"] = dict(
     harnesses=[H("c09::c09_last_frame_return", bounds="all limits/spent/refunds x 8 result classes", stubs_expected=["RandomState"]),
                H("c09::c09_refund_cap", bounds="all spent/limits, refunds < 2^60, London and Berlin", stubs_expected=["RandomState"]),
                H("c09::c09_floor_step", bounds="all u64 values with floor <= limit, refund <= spent/2"),
+               # the intrinsic gas and the EIP-7623 floor that `gas used` is measured against (the values handed to the floor step): C02's harnesses
+               H("c02::c02_gas_prague", flags=["-Z", "unstable-options", "--no-assertion-reach-checks"], timeout=600, mem_gb=4,
+                 bounds="validate_initial_tx_gas / calculate_initial_tx_gas under Prague: initial_gas and floor_gas equal the EIP formulas, all gas limits x calldata <= 8 bytes x access list <= 1x2 x auth list <= 1 x create/call"),
+               H("c02::c02_gas_cancun", flags=["-Z", "unstable-options", "--no-assertion-reach-checks"], timeout=600, mem_gb=4,
+                 bounds="same before Prague: floor_gas == 0"),
                H("c09::c09_twin_must_fail", expect_fail=True, bounds="vacuity twin")],
     jobs=[dict(name="e3::floor_step_structure", fn=jobs_e3.run_floor_step),
           dict(name="e3::beneficiary_price_dataflow", fn=jobs_e3.run_fee_prices)],
 )
 
 # --------------------------------------------------------------------------- C10
-_C10 = ["sstore", "tstore", "log0", "log2", "log4", "create", "create2", "selfdestruct", "eofcreate"]
+_C10 = ["sstore", "tstore", "log0", "log2", "log4", "create", "create2", "selfdestruct", "eofcreate",
+        "sstore_byzantium", "sstore_petersburg", "sstore_istanbul", "create_byzantium", "create2_petersburg", "selfdestruct_byzantium"]
 PROPS["C10"] = dict(
     functions=["revm_interpreter::instructions::host::{sstore, tstore, log::<0|2|4>, selfdestruct}", "revm_interpreter::instructions::contract::{create::<false|true>, eofcreate, call, extcall}",
                "the CallInputs aggregate built by contract::{call, call_code, delegate_call, static_call, extcall, extdelegatecall, extstaticcall} (MIR)"],
     bounds="is_static = true; 8 symbolic 256-bit stack words (all operand values), all u64 gas; CALL: every non-zero value (thorough tier, concrete target); the value guard of CALL and EXTCALL on MIR in both tiers (full 256-bit zero test of the popped value); "
-           "SPEC = LatestSpec; host = NoHost (any host call fails the harness); flag propagation: the single CallInputs construction of each of the 7 call opcodes",
+           "SPEC = LatestSpec, and ByzantiumSpec / PetersburgSpec / IstanbulSpec for SSTORE, CREATE, CREATE2, SELFDESTRUCT (static mode exists since Byzantium); host = NoHost (any host call fails the harness); flag propagation: the single CallInputs construction of each of the 7 call opcodes",
     outside="`the world state at the end of the static call equals the state at its start` (needs journal revert, DESIGN §2); LOG1/LOG3 (same generic body as LOG0/2/4); "
-            "other Spec instantiations of the guard (it is not spec dependent); nested frames beyond the flag handed to the child",
+            "Spec instantiations other than the named ones; nested frames beyond the flag handed to the child",
     assumptions=["Interpreter assembled field by field with an 8-word stack buffer (c03::new_interp)", "Kani/CBMC/CaDiCaL; z3/cvc5 trusted",
                  "MIR aggregate `CallInputs { .. is_static: X .. }` is the only place the child's flag is set (one construction per opcode, checked)"],
     harnesses=[H("c10::c10_" + n, timeout=600, mem_gb=6, bounds="all operands x all gas, static frame") for n in _C10]
@@ -380,10 +391,12 @@ CLAIMS = {
         text="The control-flow graphs of the six frame functions are taken from the MIR dump and encoded for z3 and cvc5: a path from entry to a normal "
              "return on which the number of checkpoints opened differs from the number committed/reverted (0 for a returned result, +1 for a returned frame that "
              "carries the checkpoint, -1 for the *_return functions) is searched symbolically over all paths. unsat = every path is balanced; a model is "
-             "replayed as a concrete make_*_frame scenario on the real API before it is reported.",
+             "replayed as a concrete make_*_frame scenario on the real API before it is reported. The limit itself: the comparison each constructor makes between "
+             "JournaledState::depth() and its constant is read from MIR and the solvers are asked for a 64-bit depth at which refusal differs from `depth > 1024`; "
+             "the guard of create_account_checkpoint (the Ok:+1 / Err:0 summary) is decided by the provenance-flow job shared with C21.",
         note="Data is abstracted: only control flow and the depth-affecting callees are modelled, which over-approximates the real paths. The pairing of frames "
              "and *_return calls by the call loop is outside the claim.",
-        technique="SMT path search (z3+cvc5) over the MIR control-flow graph with callee depth summaries; native replay of candidate paths",
+        technique="SMT path search (z3+cvc5) over the MIR control-flow graph with callee depth summaries; 64-bit bit-vector query on the depth comparison; native replay of candidates",
         engine="smt-mir",
         design_ref="DESIGN.md §5 C07"),
     "C20": dict(
